@@ -140,6 +140,13 @@ def n_sounds(tokens):
     return n
 
 
+# arrays dimensioned in every session: type hint -> (name, upper bounds); scalars created before them
+ARRAYS = {'a%': (b'AR%', (10,)), 'a!': (b'AS!', (6,)), 'a#': (b'AD#', (10,)), 'm%': (b'AM%', (2, 3)), 'm#': (b'AN#', (1, 2, 2)),
+          'a$': (b'SA$', (10,))}
+PRE_SCALARS = {'b%': b'BI%', 'b!': b'BS!', 'b#': b'BD#'}
+SETUP = [b'BI%=0:BS!=0:BD#=0', b'DIM AR%(10),AS!(6),AD#(10),AM%(2,3),AN#(1,2,2),SA$(10)']
+
+
 class Renderer(object):
     """Token items -> pieces of a BASIC string expression + variable assignments."""
 
@@ -150,26 +157,51 @@ class Renderer(object):
         self.nsep = 0
         self.nsep_lower = 0   # separators directly followed by a lower-case command letter
         self.nvar = 0
-        self.narr = narr if narr is not None else [0]     # array elements handed out (shared with sub-renderers)
+        self.narr = narr if narr is not None else set()   # array elements / early scalars handed out (shared with sub-renderers)
         self.assign = []      # (name bytes, value: int or bytes)
         self.nrefs = 0
         self.nptr = 0
         self.narrptr = 0      # VARPTR$ references to array elements
 
     def _name(self, kind, hint=None):
-        """A fresh variable: integer %, single !, double #, element of an integer / double / string array."""
+        """
+        A fresh variable for one reference. Types: scalars % ! # $ created by the assignment (after the arrays),
+        b% b! b# scalars created BEFORE the arrays were dimensioned, elements of one-dimensional arrays a% a! a# a$
+        and of multi-dimensional arrays m% m#. An array hint may carry the element position: 'a#:last', 'm%:first',
+        'a!:middle'. No element or b-scalar is used twice in one statement.
+        """
         self.nvar += 1
         r = self.rng.random()
         if kind == 'str':
             typ = hint or ('a$' if r < 0.15 else '$')
         else:
-            typ = hint or ('%' if r < 0.35 else '!' if r < 0.55 else '#' if r < 0.80 else 'a%' if r < 0.90 else 'a#')
-        if typ.startswith('a'):
-            if self.narr[0] >= 10:
-                typ = typ[1:]
-            else:
-                self.narr[0] += 1
-                return {'a%': b'AR%%(%d)', 'a#': b'AD#(%d)', 'a$': b'SA$(%d)'}[typ] % self.narr[0]
+            typ = hint or ('%' if r < 0.25 else '!' if r < 0.40 else '#' if r < 0.60 else 'a%' if r < 0.68 else
+                           'a!' if r < 0.74 else 'a#' if r < 0.82 else 'm%' if r < 0.88 else 'm#' if r < 0.93 else
+                           'b' + self.rng.choice('%!#'))
+        typ, _, where = typ.partition(':')
+        used = self.narr
+        if typ in ARRAYS:
+            name, dims = ARRAYS[typ]
+            for _ in range(6):
+                w = where or self.rng.choice(['first', 'last', 'middle', 'any', 'any'])
+                if w == 'first':
+                    idx = tuple(0 for d in dims)
+                elif w == 'last':
+                    idx = tuple(dims)
+                elif w == 'middle':
+                    idx = tuple(d // 2 for d in dims)
+                else:
+                    idx = tuple(self.rng.randint(0, d) for d in dims)
+                if (name, idx) not in used:
+                    used.add((name, idx))
+                    return name + b'(' + b','.join(b'%d' % i for i in idx) + b')'
+                where = ''
+            typ = typ[1:]
+        elif typ in PRE_SCALARS:
+            if PRE_SCALARS[typ] not in used:
+                used.add(PRE_SCALARS[typ])
+                return PRE_SCALARS[typ]
+            typ = typ[1:]
         return {'%': b'Q%d%%', '!': b'R%d!', '#': b'D%d#', '$': b'S%d$'}[typ] % self.nvar
 
     def _case(self, s):
@@ -315,7 +347,9 @@ class Rig(object):
         _, self.audio = h.record_queues(self.box.s, video=False)
         if self.sound_on and self.syntax == 'pcjr':
             self.box.ex(b'SOUND ON')
-        self.box.ex(b'DIM AR%(10),AD#(10),SA$(10)')
+        for st in SETUP:
+            if self.box.ex(st).strip():
+                raise RuntimeError('setup failed: %r' % st)
         self.audio.drain()
 
     def close(self):
@@ -585,13 +619,15 @@ def directed_cases(part):
                                  (['O', 2], ['ptr', None]), (['N', 34, 0], ['ptr', None]), (['note', 'A', '', None, 0], None)]]
         # every numeric argument kind x every variable type x (=name; | "="+VARPTR$(var)); X with scalar / array-element strings
         for form in ('var', 'ptr'):
-            for typ in ('%', '!', '#', 'a%', 'a#'):
+            alltypes = ['%', '!', '#', 'b%', 'b!', 'b#'] + ['%s:%s' % (a, w) for a in ('a%', 'a!', 'a#', 'm%', 'm#')
+                                                             for w in ('first', 'middle', 'last')]
+            for typ in alltypes:
                 for tk in (['L', 8], ['T', 200], ['O', 5], ['N', 34, 1], ['V', 7]):
                     tag = '%sref %s %s %s' % ('V:' if tk[0] == 'V' else '', tk[0], typ, form)
                     yield tag, [hdr() + [(['note', 'C', '', None, 0], None), (list(tk), [form, typ]),
                                          (['note', 'D', '', None, 1], None), (['note', 'E', '-', 16, 0], None)]]
-            for typ in ('$', 'a$'):
-                sub2 = [(['L', 16], ['var', '#']), (['note', 'G', '', None, 0], None), (['O', 1], ['var', 'a#']), (['note', 'F', '#', 2, 0], None)]
+            for typ in ('$', 'a$:first', 'a$:middle', 'a$:last'):
+                sub2 = [(['L', 16], ['var', '#']), (['note', 'G', '', None, 0], None), (['O', 1], ['var', 'a#:last']), (['note', 'F', '#', 2, 0], None)]
                 yield 'ref X %s %s' % (typ, form), [hdr() + [(['X', sub2], [form, typ]), (['note', 'B', '', None, 0], None)]]
         # letter case x separators: every command kind, a separator at every position the grammar allows
         sub3 = [(['note', 'G', '', None, 0], None), (['L', 2], 'lit'), (['note', 'D', '-', None, 1], None)]
